@@ -1,6 +1,7 @@
 //! Per-processor state for worker threads.
 
 use std::collections::VecDeque;
+use std::mem;
 use std::sync::Mutex;
 use std::sync::atomic::{AtomicBool, AtomicU64, Ordering};
 
@@ -8,7 +9,7 @@ use event_listener::Event;
 use events_once::EventLake;
 use plurality::MultiPool;
 
-use crate::ErasedTaskHandle;
+use crate::{ErasedTaskHandle, NEVER_POISONED};
 
 /// Everything a processor's worker threads share: the work they draw from, the storage that
 /// work lives in, and the signals that tell them to wake up or stop.
@@ -67,6 +68,18 @@ impl ProcessorState {
         // before they observe the shutdown flag.
         self.shutdown_flag.store(true, Ordering::Release);
         self.wake_event.notify(usize::MAX);
+    }
+
+    /// Drops every task that is still queued, which disconnects the result channels of those
+    /// tasks so that awaiting their join handles reports the abandonment instead of waiting
+    /// forever. Called once the pool has shut down.
+    pub(crate) fn abandon_queued_tasks(&self) {
+        // The tasks are taken out first so that no queue lock is held while they are dropped,
+        // because dropping a task drops caller-owned state captured by its closure.
+        let urgent = mem::take(&mut *self.urgent_queue.lock().expect(NEVER_POISONED));
+        let regular = mem::take(&mut *self.regular_queue.lock().expect(NEVER_POISONED));
+        drop(urgent);
+        drop(regular);
     }
 
     pub(crate) fn record_task_spawned(&self) {
